@@ -3,7 +3,7 @@
    Each theorem is closed by `exact <lemma>` and followed by Print Assumptions. *)
 From V.lib Require Import Base.
 From V.c08 Require Import C08Model C08Spec C08SelModel C08FragModel C08FragProofs C08EncModel C08EncProofs
-     C08CopyProofs C08InterProofs C08SwModel C08SwProofs.
+     C08CopyProofs C08InterProofs C08SwModel C08SwProofs C08LwProofs.
 
 (* DecodeFile = top-level walk + the per-box checks of the loop + File.AddChild (isFragmented, Init, File.Mdat,
    Sidxs, Segments, Fragments with Moof / Mdat / Emsgs / Children, Mfra, lastBoxType), with or without
@@ -206,4 +206,58 @@ Example C08_encode_sw_hyps :
   mdat_encode_sw (mdat_lazy 8 true 2) (mkSW 18 [90;90;90] false) = (false, mkSW 18 [90;90;90;0;0;0;1;109;100;97;116] true) /\
   mdat_encode_sw (mdat_lazy 8 true 2) (mkSW 19 [90;90;90] false)
   = (true, mkSW 19 ([90;90;90] ++ sub file 8 16) false).
+Proof. vm_compute. repeat split; reflexivity. Qed.
+
+(* ---- round 4: the lazy writer end to end (closes the gap between C08_lazy_writer, which took ANY payload, and
+   C08_copy_samples) ---- *)
+
+(* the number of bytes of samples a..b (as laid out by the chunk run) is the sum of their table sizes *)
+Theorem C08_expected_samples_len :
+  forall file startPos large payloadLen tb chunks a b,
+  box_in_file file startPos large payloadLen = true ->
+  chunks_cover a b chunks = true ->
+  chunks_in_payload tb startPos large payloadLen chunks = true ->
+  lenN (expected_samples file tb chunks a b) = sumN (sizes_from tb a (N.to_nat (b + 1 - a))).
+Proof. exact expected_samples_len. Qed.
+Print Assumptions C08_expected_samples_len.
+
+(* examples/segmenter -lazy for one fragment of one track: Fragment.AddSampleToTrack for samples a..b
+   (lazyDataSize += uint64(size), uint64 arithmetic), Encode of the fragment's mdat (header only), then
+   File.CopySampleData(a..b) from the input (decoded lazily or in memory), every work buffer, every short-read
+   schedule: the accumulated size IS the number of bytes copied, so header ++ copied bytes is a well-formed mdat box
+   (8-byte header up to 2^32-9 payload bytes, 16-byte header above) whose payload is exactly the bytes of samples
+   a..b.  Hypotheses: those of C08_copy_samples, and the total below 2^63-16. *)
+Theorem C08_lazy_writer_end_to_end :
+  forall file startPos large payloadLen tb chunks a b ws zeof orc sp,
+  box_in_file file startPos large payloadLen = true ->
+  chunks_cover a b chunks = true ->
+  chunks_in_payload tb startPos large payloadLen chunks = true ->
+  sumN (sizes_from tb a (N.to_nat (b + 1 - a))) < 9223372036854775792 ->
+  let total := lazy_size_after (sizes_from tb a (N.to_nat (b + 1 - a))) in
+  let largeW := 4294967296 - 1 - 8 <? total in
+  exists h p,
+    mdat_encode (mdat_for_writing sp total) = Ok h
+    /\ copy_sample_data true file zeof (mdat_lazy startPos large payloadLen) (Some (mkRS 0 orc)) tb chunks a b ws = Ok p
+    /\ copy_sample_data true file zeof (mdat_mem file startPos large payloadLen) (Some (mkRS 0 orc)) tb chunks a b ws = Ok p
+    /\ p = expected_samples file tb chunks a b
+    /\ lenN p = total
+    /\ total = sumN (sizes_from tb a (N.to_nat (b + 1 - a)))
+    /\ lenN h = hdr_len largeW
+    /\ header_at (h ++ p) 0 largeW total = true
+    /\ box_in_file (h ++ p) 0 largeW total = true
+    /\ sub (h ++ p) (hdr_len largeW) total = p.
+Proof. exact lazy_writer_end_to_end. Qed.
+Print Assumptions C08_lazy_writer_end_to_end.
+
+(* satisfiable, non-trivial: samples 2..3 (2 + 3 bytes) of a 3-sample track spanning a chunk boundary: the prepared
+   mdat announces 5 payload bytes, the written box is 00 00 00 0d "mdat" 2 3 4 5 6 *)
+Example C08_lazy_writer_end_to_end_hyps :
+  let file := [0;0;0;14;109;100;97;116;1;2;3;4;5;6] in
+  let tb := mkStbl [1;2;3] 0 [8;11] in
+  let chunks := [mkChunk 1 1 2; mkChunk 2 3 1] in
+  box_in_file file 0 false 6 = true /\ chunks_cover 2 3 chunks = true /\
+  chunks_in_payload tb 0 false 6 chunks = true /\
+  lazy_size_after (sizes_from tb 2 2) = 5 /\
+  mdat_encode (mdat_for_writing 0 5) = Ok [0;0;0;13;109;100;97;116] /\
+  copy_sample_data true file true (mdat_lazy 0 false 6) (Some (mkRS 0 [1;1])) tb chunks 2 3 [0;0] = Ok [2;3;4;5;6].
 Proof. vm_compute. repeat split; reflexivity. Qed.
